@@ -200,4 +200,235 @@ theorem simple_complete_unique_winner (C : Contest α) (cvrs : List (Option (Bal
   · exact absurd hcomplete
       (simple_complete_wrong_winner C cvrs winner runnerUp hC hw hwf _ ⟨hperm, pre, x, rfl, hx⟩ hv)
 
+/-! ### sim_irv -/
+
+/-- **sim_irv follows a possible IRV count.** On a contest (duplicate-free candidate list of at least two) `sim_irv`
+returns the last two candidates `(w, r)` of a complete elimination order that is a possible IRV count of the CVRs:
+at every round the candidate eliminated has a smallest tally among those standing. `validIRV` allows ties to be
+broken either way, so this holds with or without ties (the rule of the code — the first candidate in `standing`
+order among those with the smallest tally goes — is `Simp.pickMin_spec`). -/
+theorem sim_irv_valid (C : Contest α) (cvrs : List (Option (Ballot α))) (hC : C.candidates.Nodup)
+    (hn : 2 ≤ C.candidates.length) :
+    ∃ pre w r, simIrv C cvrs = Res.ok (w, r) ∧ (pre ++ [r, w]).Perm C.candidates ∧
+      validIRV (cvrs.filterMap id) (pre ++ [r, w]) := by
+  have hne : C.candidates ≠ [] := by intro h; rw [h] at hn; simp at hn
+  obtain ⟨order, s0, h1, h2, h3⟩ :=
+    simLoop_spec (cvrs.filterMap id) C.candidates.length C.candidates [] hC hne (by omega)
+  have hlen := h2.length_eq
+  have hone : order ≠ [] := by intro h; rw [h] at hlen; simp at hlen; omega
+  obtain ⟨pre, r, rfl⟩ : ∃ pre r, order = pre ++ [r] :=
+    ⟨order.dropLast, order.getLast hone, (List.dropLast_append_getLast hone).symm⟩
+  have hπ : pre ++ [r] ++ [s0] = pre ++ [r, s0] := by simp
+  refine ⟨pre, s0, r, ?_, hπ ▸ h2, ?_⟩
+  · simp only [simIrv, simIrvState, h1, List.nil_append]
+    simp
+  · intro p x q hsplit y hy
+    have := h3 p x q (by rw [hπ]; exact hsplit) y hy
+    simpa using this
+
+/-- the pair `sim_irv` returns: two distinct candidates of the contest -/
+theorem sim_irv_distinct_candidates (C : Contest α) (cvrs : List (Option (Ballot α))) (hC : C.candidates.Nodup)
+    (hn : 2 ≤ C.candidates.length) (w r : α) (h : simIrv C cvrs = Res.ok (w, r)) :
+    w ≠ r ∧ w ∈ C.candidates ∧ r ∈ C.candidates := by
+  obtain ⟨pre, w', r', h1, h2, _⟩ := sim_irv_valid C cvrs hC hn
+  rw [h] at h1
+  injection h1 with h1
+  obtain ⟨rfl, rfl⟩ := Prod.mk.inj h1
+  have hnd : (pre ++ [r, w]).Nodup := h2.nodup_iff.2 hC
+  refine ⟨?_, h2.mem_iff.1 (by simp), h2.mem_iff.1 (by simp)⟩
+  rintro rfl
+  rw [List.nodup_append] at hnd
+  have := hnd.2.1
+  simp at this
+
+/-- **Termination and exceptions of sim_irv**, for every candidate list (repeated candidates included): with fewer
+than two candidates it raises IndexError (`standing[0]` of an empty list / `eliminated[-1]` of an empty list),
+otherwise it returns a pair — the `len(candidates)` loop iterations the model allows are never used up and
+`standing.remove(None)` is never reached. -/
+theorem sim_irv_terminates (C : Contest α) (cvrs : List (Option (Ballot α))) :
+    (C.candidates.length < 2 ∧ simIrv C cvrs = Res.err Err.IndexError) ∨
+    (2 ≤ C.candidates.length ∧ ∃ w r, simIrv C cvrs = Res.ok (w, r)) := by
+  obtain ⟨s, e, h1, h2, h3, h4⟩ :=
+    simLoop_total (cvrs.filterMap id) C.candidates.length C.candidates [] (by omega)
+  by_cases hn : 2 ≤ C.candidates.length
+  · right
+    refine ⟨hn, ?_⟩
+    have hs : s ≠ [] := h3 (by intro h; rw [h] at hn; simp at hn)
+    have he : e ≠ [] := by
+      intro h; rw [h] at h4; simp at h4; omega
+    obtain ⟨s0, s', rfl⟩ := List.exists_cons_of_ne_nil hs
+    refine ⟨s0, e.getLast he, ?_⟩
+    simp only [simIrv, simIrvState, h1, List.getLast?_eq_some_getLast he]
+  · left
+    refine ⟨by omega, ?_⟩
+    match hc : C.candidates with
+    | [] => simp [simIrv, simIrvState, hc, simLoop]
+    | [a] => simp [simIrv, simIrvState, hc, simLoop]
+    | _ :: _ :: _ => rw [hc] at hn; simp at hn
+
+/-- an IRV count without ties: at every round the eliminated candidate has strictly fewer votes than everybody
+still standing -/
+def StrictIRV (ballots : List (Ballot α)) (π : List α) : Prop :=
+  ∀ pre x post, π = pre ++ x :: post → ∀ y ∈ post, tally ballots x pre < tally ballots y pre
+
+/-- without ties the IRV count is unique: every possible count is the strict one -/
+theorem irv_count_unique (ballots : List (Ballot α)) (π π' : List α) (hperm : π'.Perm π)
+    (hs : StrictIRV ballots π) (hv : validIRV ballots π') : π' = π := by
+  have key : ∀ (l e l' : List α), l'.Perm l →
+      (∀ p x q, l = p ++ x :: q → ∀ y ∈ q, tally ballots x (e ++ p) < tally ballots y (e ++ p)) →
+      (∀ p x q, l' = p ++ x :: q → ∀ y ∈ q, tally ballots x (e ++ p) ≤ tally ballots y (e ++ p)) → l' = l := by
+    intro l
+    induction l with
+    | nil => intro e l' hp _ _; exact List.Perm.eq_nil hp
+    | cons x l ih =>
+      intro e l' hp hst hva
+      cases l' with
+      | nil => exact absurd hp.symm.eq_nil (by simp)
+      | cons x' l' =>
+        have hxx : x' = x := by
+          apply Classical.byContradiction
+          intro hne
+          have h1 : x' ∈ l := by
+            have : x' ∈ x :: l := hp.mem_iff.1 (by simp)
+            rcases List.mem_cons.1 this with h | h
+            · exact absurd h hne
+            · exact h
+          have h2 : x ∈ l' := by
+            have : x ∈ x' :: l' := hp.mem_iff.2 (by simp)
+            rcases List.mem_cons.1 this with h | h
+            · exact absurd h.symm hne
+            · exact h
+          have a1 := hst [] x l rfl x' h1
+          have a2 := hva [] x' l' rfl x h2
+          omega
+        subst hxx
+        have hp' : l'.Perm l := hp.cons_inv
+        congr 1
+        apply ih (e ++ [x']) l' hp'
+        · intro p z q hsplit y hy
+          have := hst (x' :: p) z q (by rw [hsplit]; rfl) y hy
+          simpa using this
+        · intro p z q hsplit y hy
+          have := hva (x' :: p) z q (by rw [hsplit]; rfl) y hy
+          simpa using this
+  exact key π [] π' hperm (by simpa [StrictIRV] using hs) (by simpa [validIRV] using hv)
+
+/-- **sim_irv without ties**: if the CVRs have an IRV count `π` without ties, `sim_irv` returns its winner and its
+runner-up -/
+theorem sim_irv_no_ties (C : Contest α) (cvrs : List (Option (Ballot α))) (hC : C.candidates.Nodup)
+    (hn : 2 ≤ C.candidates.length) (π : List α) (hπ : π.Perm C.candidates)
+    (hs : StrictIRV (cvrs.filterMap id) π) :
+    ∃ pre w r, π = pre ++ [r, w] ∧ simIrv C cvrs = Res.ok (w, r) := by
+  obtain ⟨pre, w, r, h1, h2, h3⟩ := sim_irv_valid C cvrs hC hn
+  exact ⟨pre, w, r, (irv_count_unique _ π _ (h2.trans hπ.symm) hs h3).symm, h1⟩
+
+/-- **The script's use**: `simple_IRV_assertions` run on the pair `sim_irv` returns. If all assertions can be formed
+(the script then prints an audit cost instead of "Full Recount"), the returned set is sufficient for the winner
+`sim_irv` found, every member is true of the CVRs, and — ballots well formed — that winner is the winner of EVERY
+possible IRV count of the CVRs. -/
+theorem sim_then_simple (C : Contest α) (cvrs : List (Option (Ballot α))) (hC : C.candidates.Nodup)
+    (hn : 2 ≤ C.candidates.length) (w r : α) (h : simIrv C cvrs = Res.ok (w, r))
+    (hcomplete : (simpleIrvAssertions C cvrs w r).2 = []) :
+    (∀ a ∈ (simpleIrvAssertions C cvrs w r).1, holds cvrs a) ∧
+    Sufficient C.candidates w (simpleIrvAssertions C cvrs w r).1 ∧
+    ((∀ b ∈ cvrs.filterMap id, BallotWF b) → ∀ π, π.Perm C.candidates → validIRV (cvrs.filterMap id) π →
+      π.getLast? = some w) := by
+  obtain ⟨_, hw, _⟩ := sim_irv_distinct_candidates C cvrs hC hn w r h
+  exact ⟨simple_true C cvrs w r hC, simple_sufficient C cvrs w r hC hw hcomplete,
+    fun hwf π hp hv => simple_complete_unique_winner C cvrs w r hC hw hwf hcomplete π hp hv⟩
+
+/-! ### Non-vacuity: concrete contests (tests of the statements' hypotheses, not of the theorems)
+
+`CEx`, `cvrsEx` of Props/C04.lean: candidates 0, 1, 2; ballots 4 x (0,1), 3 x (1,2), 2 x (2,1): candidate 2 is
+eliminated first and 1 beats 0 by 5 to 4. -/
+
+/-- (is NEB, winner, loser, eliminated, tallies) of each returned assertion, and the failures -/
+def simpSummary (r : List (Assertion Nat Unit) × List (Failure Nat)) :
+    List (Bool × Nat × Nat × List Nat × Nat × Nat) × List (Bool × Nat × Nat × List Nat) :=
+  (r.1.map fun a => (a.kind == .neb, a.winner, a.loser, a.eliminated, a.votesW, a.votesL),
+   r.2.map fun f => (f.kind == .neb, f.winner, f.loser, f.eliminated))
+
+def simSummary (r : Res (Nat × Nat)) : Option (Nat × Nat) :=
+  match r with
+  | Res.ok p => some p
+  | _ => none
+
+-- sim_irv: winner 1, runner-up 0
+example : simSummary (simIrv CEx cvrsEx) = some (1, 0) := by rfl
+-- simple_IRV_assertions on that pair: NEN(1,0 | 2 eliminated) 5 > 4 and NEB(1,2) 3 > 2, nothing failed
+example : simpSummary (simpleIrvAssertions CEx cvrsEx 1 0) =
+    ([(false, 1, 0, [2], 5, 4), (true, 1, 2, [], 3, 2)], []) := by rfl
+-- reported winner 0 (wrong), runner-up 1: neither assertion can be formed (4 vs 5; 4 first preferences vs 5 mentions)
+example : simpSummary (simpleIrvAssertions CEx cvrsEx 0 1) =
+    ([], [(false, 0, 1, [2]), (true, 0, 2, [])]) := by rfl
+-- right winner, wrong runner-up: NEN(1,2 | 0 eliminated) 7 > 2 holds, NEB(1,0) fails (3 vs 4)
+example : simpSummary (simpleIrvAssertions CEx cvrsEx 1 2) =
+    ([(false, 1, 2, [0], 7, 2)], [(true, 1, 0, [])]) := by rfl
+-- winner = runner_up: the NEN comparison is 9 vs 9 and fails
+example : simpSummary (simpleIrvAssertions CEx cvrsEx 1 1) =
+    ([(true, 1, 2, [], 3, 2)], [(false, 1, 1, [0, 2]), (true, 1, 0, [])]) := by rfl
+-- `simple_true`, `simple_sufficient` apply to the run on (1, 0): hypotheses satisfiable, conclusion non-trivial
+example : (simpleIrvAssertions CEx cvrsEx 1 0).1 ≠ [] ∧
+    (∀ a ∈ (simpleIrvAssertions CEx cvrsEx 1 0).1, holds cvrsEx a) ∧
+    Sufficient CEx.candidates 1 (simpleIrvAssertions CEx cvrsEx 1 0).1 :=
+  ⟨by decide, simple_true CEx cvrsEx 1 0 (by decide),
+   simple_sufficient CEx cvrsEx 1 0 (by decide) (by decide) (by rfl)⟩
+instance (b : Ballot Nat) : Decidable (BallotWF b) := by unfold BallotWF; infer_instance
+-- the hypotheses of `simple_complete_wrong_winner` for reported winner 0: the ballots are well formed and the
+-- order 2, 0, 1 is a possible IRV count ending in 1
+example : (∀ b ∈ cvrsEx.filterMap id, BallotWF b) ∧ Alt CEx.candidates 0 [2, 0, 1] ∧
+    validIRV (cvrsEx.filterMap id) [2, 0, 1] := by
+  refine ⟨by decide, ⟨by decide, [2, 0], 1, rfl, by decide⟩, ?_⟩
+  obtain ⟨pre, w, r, h1, h2, h3⟩ := sim_irv_valid CEx cvrsEx (by decide) (by decide)
+  have hs : simSummary (simIrv CEx cvrsEx) = some (1, 0) := by rfl
+  rw [h1] at hs
+  obtain ⟨rfl, rfl⟩ : w = 1 ∧ r = 0 := by simpa [simSummary] using hs
+  have hlen := h2.length_eq
+  have hpre : pre.length = 1 := by simp [CEx] at hlen; omega
+  match pre, hpre with
+  | [x], _ =>
+    have hx : x ∈ CEx.candidates := h2.mem_iff.1 (by simp)
+    have hnd : ([x] ++ [0, 1]).Nodup := h2.nodup_iff.2 (by decide)
+    have : x = 2 := by
+      simp [CEx] at hx hnd
+      omega
+    subst this
+    exact h3
+-- ... and this count has no tie: `sim_irv_no_ties` applies
+example : StrictIRV (cvrsEx.filterMap id) [2, 0, 1] := by
+  intro pre x post h y hy
+  match pre, h with
+  | [], h =>
+    obtain ⟨rfl, rfl⟩ : 2 = x ∧ [0, 1] = post := by simpa using h
+    have : y = 0 ∨ y = 1 := by simpa using hy
+    rcases this with rfl | rfl <;> decide
+  | [a], h =>
+    obtain ⟨rfl, rfl, rfl⟩ : 2 = a ∧ 0 = x ∧ [1] = post := by simpa using h
+    have : y = 1 := by simpa using hy
+    subst this; decide
+  | [a, b], h =>
+    obtain ⟨rfl, rfl, rfl, rfl⟩ : 2 = a ∧ 0 = b ∧ 1 = x ∧ [] = post := by simpa using h
+    cases hy
+  | _ :: _ :: _ :: _, h => simp at h
+-- a three-way tie: the first candidate in `standing` order with the smallest tally goes, so the result depends on
+-- the order in which the contest lists its candidates
+def cvrsTie : List (Option (Ballot Nat)) :=
+  List.replicate 2 (balEx [0]) ++ List.replicate 2 (balEx [1]) ++ List.replicate 2 (balEx [2])
+example : simSummary (simIrv CEx cvrsTie) = some (2, 1) := by rfl
+example : simSummary (simIrv { CEx with candidates := [2, 1, 0] } cvrsTie) = some (0, 1) := by rfl
+-- fewer than two candidates: IndexError (`sim_irv_terminates`, first case)
+example : simIrv { CEx with candidates := [0] } cvrsEx = Res.err Err.IndexError := by rfl
+example : simIrv { CEx with candidates := [] } cvrsEx = Res.err Err.IndexError := by rfl
+-- a hole in the first line position (candidate 0 at position 1, nothing at position 0): a vote for 0 in the count
+-- (NEN tally 4 + 3), not a first preference for NEB (`widx == 0` fails: 4, and the ballot is no mention of 2 before 0)
+def cvrsHole : List (Option (Ballot Nat)) :=
+  List.replicate 4 (balEx [0, 1]) ++ List.replicate 3 (some [(0, 1), (1, 2)]) ++ List.replicate 2 (balEx [2, 1]) ++ [none]
+example : simpSummary (simpleIrvAssertions CEx cvrsHole 0 1) =
+    ([(false, 0, 1, [2], 7, 2), (true, 0, 2, [], 4, 2)], []) := by rfl
+-- a repeated candidate: one dict entry, incremented once per occurrence (why `simple_true` asks for a duplicate-free
+-- candidate list): NEB(0, 2) is reported twice with loser tally 2 x 2
+example : simpSummary (simpleIrvAssertions { CEx with candidates := [0, 1, 2, 2] } cvrsEx 0 1) =
+    ([], [(false, 0, 1, [2, 2]), (true, 0, 2, []), (true, 0, 2, [])]) := by rfl
+example : dictGet (countsOf { CEx with candidates := [0, 1, 2, 2] } cvrsEx 0 1).maxCW2 2 = 10 := by rfl
+
 end Shangrla.C04
